@@ -540,35 +540,58 @@ pub fn show_flags(s: &IdlSingleAccountSet) -> String {
 
 /// Canonical one-line form of a real account-set definition (`Defined` resolved and inlined).
 pub fn show_idl_set(def: &IdlDefinition, s: &IdlAccountSetDef, depth: usize) -> String {
+    show_idl_set_with(def, s, depth, false)
+}
+
+/// `with_seeds`: a single set that has find-seeds gets a fourth element listing them: `(c)` constant,
+/// `(r <words>)` account path relative to the holding set, `(a <words>)` `:`-rooted account path.
+pub fn show_idl_set_with(def: &IdlDefinition, s: &IdlAccountSetDef, depth: usize, with_seeds: bool) -> String {
     if depth > 40 {
         return "(or)".into();
     }
     match s {
         IdlAccountSetDef::Defined(id) => match def.account_sets.get(&id.source) {
-            Some(set) => show_idl_set(def, &set.account_set_def, depth + 1),
+            Some(set) => show_idl_set_with(def, &set.account_set_def, depth + 1, with_seeds),
             None => "(or)".into(),
         },
         IdlAccountSetDef::Single(x) => {
-            format!("(single {} {})", show_flags(x), x.address.map(|a| hex(a.as_ref())).unwrap_or_else(|| "-".into()))
+            let base = format!("(single {} {}", show_flags(x), x.address.map(|a| hex(a.as_ref())).unwrap_or_else(|| "-".into()));
+            match (&x.seeds, with_seeds) {
+                (Some(fs), true) => {
+                    let items: Vec<String> = fs
+                        .seeds
+                        .iter()
+                        .map(|sd| match sd {
+                            star_frame::star_frame_idl::seeds::IdlFindSeed::Const(_) => "(c)".to_string(),
+                            star_frame::star_frame_idl::seeds::IdlFindSeed::AccountPath(p) => match p.strip_prefix(':') {
+                                Some(rooted) => format!("(a {rooted})"),
+                                None => format!("(r {p})"),
+                            },
+                        })
+                        .collect();
+                    format!("{base} ({}))", items.join(" "))
+                }
+                _ => format!("{base})"),
+            }
         }
         IdlAccountSetDef::Struct(fs) => {
             let mut out = "(struct".to_string();
             for f in fs {
-                out.push_str(&format!(" ({} {})", f.path.clone().unwrap_or_else(|| "#".into()), show_idl_set(def, &f.account_set_def, depth + 1)));
+                out.push_str(&format!(" ({} {})", f.path.clone().unwrap_or_else(|| "#".into()), show_idl_set_with(def, &f.account_set_def, depth + 1, with_seeds)));
             }
             out.push(')');
             out
         }
         IdlAccountSetDef::Many { account_set, min, max } => format!(
             "(many {} {min} {})",
-            show_idl_set(def, account_set, depth + 1),
+            show_idl_set_with(def, account_set, depth + 1, with_seeds),
             max.map(|m| m.to_string()).unwrap_or_else(|| "*".into())
         ),
         IdlAccountSetDef::Or(alts) => {
             let mut out = "(or".to_string();
             for a in alts {
                 out.push(' ');
-                out.push_str(&show_idl_set(def, a, depth + 1));
+                out.push_str(&show_idl_set_with(def, a, depth + 1, with_seeds));
             }
             out.push(')');
             out
